@@ -206,9 +206,9 @@ func (g *Gen) Good(t *ast.Type, variant int) Val {
 		return g.minimalObject(def, 0)
 	}
 	switch def.Name {
-	case "Int", "IntID", "UintID", "I32":
+	case "Int", "IntID", "UintID", "I32", "I64", "U", "U32", "U64":
 		return vInt(strconv.Itoa(11 + variant))
-	case "Float":
+	case "Float", "F":
 		return Val{K: "float", Raw: strconv.Itoa(3+variant) + ".25"}
 	case "ID":
 		// a value that is valid for every Go binding of ID (string, int, uint)
@@ -313,11 +313,45 @@ func scalarAlphabet() []LVal {
 	}
 }
 
+// numericExtras: the width boundaries (32 and 64 bit, signed and unsigned) and their
+// neighbours that the fixed alphabet lacks, plus every boundary as a numeric STRING, plus
+// non-finite float spellings. Supplied only to positions whose (innermost) type is numeric.
+func numericExtras() []LVal {
+	var out []LVal
+	for _, n := range []string{"4294967295", "4294967296", "18446744073709551615", "18446744073709551616"} {
+		out = append(out, LVal{n, "integer-beyond-int32", vInt(n)})
+	}
+	out[2].Class, out[3].Class = "integer-beyond-int64", "integer-beyond-int64"
+	for _, n := range []string{"0", "2147483647", "2147483648", "-2147483648", "-2147483649", "4294967295", "4294967296",
+		"9223372036854775807", "9223372036854775808", "-9223372036854775808", "-9223372036854775809",
+		"18446744073709551615", "18446744073709551616"} {
+		out = append(out, LVal{strconv.Quote(n), "integer-string", vStr(n)})
+	}
+	for _, n := range []string{"1e3", "1.0", "NaN", "Infinity", "-inf"} {
+		out = append(out, LVal{strconv.Quote(n), "float-string", vStr(n)})
+	}
+	return out
+}
+
+func (g *Gen) numeric(t *ast.Type) bool {
+	for t.Elem != nil {
+		t = t.Elem
+	}
+	switch t.NamedType {
+	case "Int", "Float", "ID", "IntID", "UintID", "I32", "I64", "U", "U32", "U64", "F":
+		return true
+	}
+	return false
+}
+
 // Alphabet is the value alphabet for a position of type t: the fixed scalars plus the
 // type-dependent composites [], [v], [v,null], {}, {known:v}, {unknown:v}.
 func (g *Gen) Alphabet(t *ast.Type) []LVal {
 	out := scalarAlphabet()
 	add := func(label, class string, v Val) { out = append(out, LVal{label, class, v}) }
+	if g.numeric(t) {
+		out = append(out, numericExtras()...)
+	}
 	add("[]", "empty-list", vList())
 	if t.Elem != nil {
 		good := g.Good(t.Elem, 0)
@@ -331,6 +365,11 @@ func (g *Gen) Alphabet(t *ast.Type) []LVal {
 				continue
 			}
 			add("["+e.Label+"]", "list-of-"+e.Class, vList(e.V))
+		}
+		if g.numeric(t) {
+			for _, e := range numericExtras() {
+				add("["+e.Label+"]", "list-of-"+e.Class, vList(e.V))
+			}
 		}
 		add("[[good]]", "nested-list", vList(vList(good)))
 		add("[[]]", "nested-list", vList(vList()))
